@@ -639,5 +639,16 @@ func TestVerifC14(t *testing.T) {
 			MinNonTrivial: 4000,
 			Rule:          "structured benchstat inputs (1-4 files incl. duplicate and label=path arguments, 1-3 config blocks with set/change/delete, 2-6 benchmarks with sub-name keys and -N, 1-3 units incl. assume=exact metadata, unequal and missing samples, occasional zero/negative metrics) x flag combinations of -table/-row/-col/-ignore/-filter/-alpha/-confidence (orders @alpha and fixed lists incl.); non-trivial = >= 2 files and at least one non-default projection, ignore or filter",
 		},
+		kit.Class[c14Case]{
+			Name: "many-units", Quick: 600, Thorough: 20000,
+			Gen: func(r *kit.Rand, i int) c14Case {
+				n := []int{31, 32, 33, 63, 64, 65, 96, 1, 2}[i%9]
+				return c14Case{C: bsgen.GenManyUnits(r, n)}
+			},
+			Check:         c14Check,
+			NonTrivial:    func(cs c14Case) bool { return len(cs.C.Files[0].Lines) > 0 },
+			MinNonTrivial: 300,
+			Rule:          "benchmark lines with exactly 31/32/33/63/64/65/96 measurements (units m0/op..) and -filter expressions with .unit terms, alone, negated, and combined with whole-result terms: each unit's table must hold exactly the measurements the filter keeps (added after seeding round 2: a match mask whose size is a multiple of 32)",
+		},
 	)
 }
